@@ -131,12 +131,20 @@ _re_depth = re.compile(r"The depth of the complete state graph search is (\d+)")
 _re_sany = re.compile(r"(Parsing or semantic analysis failed|\*\*\* Errors:|Could not find|Unknown operator|Fatal error)", re.I)
 
 
+import threading
+_tlc_lock = threading.Lock()
+_tlc_seq = 0
+
+
 def tlc(run, module, cfg=None, workers=None, timeout=900, env=None, mem="8g", extra=None, tag=None,
         deadlock=False, simulate=None, queue_dfs=False, coverage=False):
     """Run TLC on spec/<module>.tla with spec/<cfg or module>.cfg. Returns a dict of stats.
     st['ok'] : model checking completed without error. st['violation'] : text of the first error."""
     tag = tag or module
-    n = len(run.tlc_runs)
+    with _tlc_lock:
+        global _tlc_seq
+        _tlc_seq += 1
+        n = _tlc_seq
     meta = run.path("tlc-%d-%s" % (n, tag), "meta", "x")[:-2]
     tmp = run.path("tlc-%d-%s" % (n, tag), "tmp", "x")[:-2]
     logf = run.path("tlc-%d-%s" % (n, tag), "out.log")
@@ -180,7 +188,8 @@ def tlc(run, module, cfg=None, workers=None, timeout=900, env=None, mem="8g", ex
     if not st["ok"]:
         m = re.search(r"Error: (.*)", out)
         st["violation"] = m.group(1) if m else ("rc=%d" % rc)
-    run.tlc_runs.append({k: st[k] for k in ("module", "cfg", "tag", "rc", "wall_s", "generated", "distinct", "depth", "ok")})
+    with _tlc_lock:
+        run.tlc_runs.append({k: st[k] for k in ("module", "cfg", "tag", "rc", "wall_s", "generated", "distinct", "depth", "ok")})
     shutil.rmtree(meta, ignore_errors=True)
     shutil.rmtree(tmp, ignore_errors=True)
     return st
